@@ -30,7 +30,7 @@ def scenarios(ctx):
              policy=dict(p_send=0.08, p_loss=0.03, p_outage=0.004, outage_len=(90, 210), retries=(-1, -1, 0), lens=[0, 1, 100, 1433, 1434, 1435, 3000]), world=dict(start_seq="alt")),
         # applications whose callbacks raise (a strict `assert ok` on an unretried neighbour): the guaranteed message that shared its datagrams still arrives
         dict(name="guaranteed-with-raising-callbacks", n=3 if q else 16, nticks=900 if q else 2500, heal_after=600 if q else 2000,
-             policy=dict(p_send=0.25, p_loss=0.1, p_outage=0.004, outage_len=(70, 130), p_cb=1.0, retries=(1, -1, 1, -1, 0), lens=[4, 20, 100, 600]), world=dict(start_seq="alt", cb_raise=0.5)),
+             policy=dict(p_send=0.6, p_loss=0.1, p_outage=0.006, outage_len=(70, 130), p_cb=1.0, retries=(1, -1, 1, -1, 0), lens=[4, 20, 100, 600]), world=dict(start_seq="alt", cb_raise=0.5)),
         # a lost guaranteed message whose retransmission arrives behind a burst of more than 256 newer messages (the width of the message window)
         dict(name="guaranteed-under-bursts", n=4 if q else 10, nticks=900 if q else 1500, heal_after=600 if q else 1100,
              policy=dict(p_send=0.15, p_loss=0.2, retries=(-1,), lens=[4, 20, 600, 1500], burst=0.03, burst_lens=(4, 4, 5), burst_retries=(0,), maxdelay=4), world=dict(start_seq="alt")),
